@@ -4,7 +4,8 @@ The REAL aioftp.Server runs on harness/simnet.py (in-memory network, virtual clo
 no wall time and fires at an exact virtual instant).  For every script of a small corpus x every prefix
 length k (the peer performs the first k steps and then stalls for good: stops sending on the control
 channel / never connects the data channel / connects and never reads / stops sending) x timeout
-combinations (idle, socket, wait_future each in {None, 0, 2, 5, 30}) the harness measures the virtual
+combinations (idle, socket, wait_future each in {None, 0, 2, 5, 30}; 0 = zero seconds: the session is over at
+its start) the harness measures the virtual
 instants at which the server closes the control connection, closes the data connection and sends 425,
 and compares them EXACTLY with the extracted Coq model (coq/Model/Timeouts.v, `run`).  Independently of
 the model, the property oracle (`oracle`) states C16 itself on the implementation's observations:
@@ -33,30 +34,38 @@ from .. import simnet
 ID = "C16"
 EXTRACT = "ExC16"
 TECHNIQUE = (
-    "Coq proof about a timed transition system over Q (one session: control readline armed at each command, "
-    "data-connection wait, per-operation data-stream deadlines, blocked control write), parametric in the wiring "
-    "'which timeout governs which await' which tools/py2v/gen_timeouts.py regenerates from the AST of common.py/server.py "
-    "on every run; tied to behaviour by running the real server on a virtual-clock in-memory network and comparing the "
-    "exact virtual instants of every release / 425 with the extracted model, for every script x stall point x timeout combination"
+    "Coq proof about a timed transition system over Q (one session: greeting write at the start, control readline armed at "
+    "each command, data-connection wait, per-operation data-stream deadlines, blocked control write), parametric in the wiring "
+    "'which timeout governs which await, combined how' which tools/py2v/gen_timeouts.py regenerates from the AST of "
+    "common.py/server.py on every run (including whether StreamIO.__init__ falls back with `X or timeout` or with "
+    "`timeout if X is None else X`); tied to behaviour by running the real server on a virtual-clock in-memory network and "
+    "comparing the exact virtual instants of every release / 425 with the extracted model, for every script x stall point x "
+    "timeout combination"
 )
 LEVEL_TEXT = (
-    "Proved (Closed under the global context) for every configuration (each timeout None or any rational), every live "
-    "state and every continuation of the timed model: C16_never_before_bound, C16_idle_drop_exact(_event), "
-    "C16_idle_release_bound, C16_next_line_rearms, C16_active_never_idle_dropped, C16_idle_drop_during_transfer, "
-    "C16_data_wait_425(_stall), C16_data_connect_in_time, C16_at_most_one_425_per_transfer, C16_data_stall_bound, "
-    "C16_data_stall_release_bound, C16_data_progress_rearms, C16_ctrl_write_stall_bound, C16_stall_ends_at_deadline, "
-    "C16_dropped_at_deadline, C16_unset_* (unset means unbounded), C16_zero_* (what the value 0 means where) and the "
-    "refutation C16_idle_zero_dropped_refuted (finding F15). The wiring the theorems speak about is re-derived from the "
-    "regenerated source facts (C16_wiring_pasv/epsv and 9 structural obligations). The tie to behaviour is sampled: "
-    "exact agreement of model and real server in VIRTUAL time on the enumerated corpus. Wall-clock promptness (event-loop "
-    "latency, OS timers, TCP) is runtime behaviour the model cannot exhibit; the property is therefore PARTIAL: proof about "
-    "the timed model + sampled agreement in virtual time."
+    "Proved (Closed under the global context) for every configuration (each timeout None or any rational: positive, zero, "
+    "negative), every live state and every continuation of the timed model: C16_effective_timeouts (every await is governed by "
+    "exactly the configured value: None is None, 0 is 0), C16_never_before_bound, C16_idle_drop_exact(_event), "
+    "C16_idle_release_bound (every value 0 <= i, zero included) and C16_idle_release_due, C16_next_line_rearms, "
+    "C16_active_never_idle_dropped, C16_idle_drop_during_transfer, C16_data_wait_425(_stall), C16_data_connect_in_time, "
+    "C16_at_most_one_425_per_transfer, C16_data_stall_bound, C16_data_stall_release_bound, C16_data_progress_rearms, "
+    "C16_ctrl_write_stall_bound, C16_stall_ends_at_deadline, C16_dropped_at_deadline, C16_unset_* (None, and only None, means "
+    "unbounded) and zero-is-zero-seconds everywhere: C16_idle_zero_drops_at_once / C16_idle_zero_release (control reads), "
+    "C16_zero_socket_ends_at_greeting / C16_zero_socket_ctrl_immediate (control writes), C16_zero_socket_data_immediate (data "
+    "reads/writes), C16_zero_wait_immediate_425 (data-connection wait). The wiring the theorems speak about is re-derived from "
+    "the regenerated source facts (C16_wiring_pasv/epsv and 9 structural obligations; the pre-repair `X or timeout` shape is "
+    "translated to a different wiring, C16_or_shape_differs_at_zero, so a revert breaks the obligation). The tie to behaviour is "
+    "sampled: exact agreement of model and real server in VIRTUAL time on the enumerated corpus. Wall-clock promptness "
+    "(event-loop latency, OS timers, TCP) is runtime behaviour the model cannot exhibit; the property is therefore PARTIAL: "
+    "proof about the timed model + sampled agreement in virtual time."
 )
 LEVEL_NOTE = (
     "Trusted: Coq kernel; extraction (ExtrOcamlBasic only) cross-checked with vm_compute; py2v; simnet (virtual clock, "
     "64 KiB flow-control window). Modelled, not verified: asyncio.wait_for/timeout semantics (deadline = start + T, "
-    "T <= 0 immediate; sampled by a dedicated stream), task scheduling order at equal instants (ties are excluded from "
-    "the corpus or tolerated, see docs/notes/C16.md), file back-end taking zero virtual time, real-time promptness."
+    "T <= 0 immediate, the awaited coroutine never starts; sampled by a dedicated stream), task scheduling order at equal "
+    "instants (ties are excluded from the corpus or tolerated, see docs/notes/C16.md), file back-end taking zero virtual time, "
+    "real-time promptness. No known finding: F16 (0 treated as 'unset' by StreamIO.__init__) is repaired; its recorded replay "
+    "is an ordinary corpus case."
 )
 TRUSTED = [
     "asyncio.wait_for(aw, T) raises TimeoutError at exactly start + T on the loop clock (T <= 0: at once, T None: never); "
@@ -776,7 +785,7 @@ def correspondence(ctx, thorough=None):
     ctx.extra["rule"] = (
         "cases = script (19 scripted sessions: login, PWD, PASV/EPSV + RETR/STOR/LIST/MLSD with the data channel connected "
         "early / late / never / held) x prefix length k (the peer stalls after k steps: every event index) x (idle, socket, "
-        "wait_future) in {None,0,2,5,30}^3 (all 125 for 5 scripts, a covering sample for the others in the quick tier; all in "
+        "wait_future) in {None,0,2,5,30}^3 (all 125 for 6 scripts, a covering sample for the others in the quick tier; all in "
         "thorough) + the witnesses of the repaired finding F16 (idle_timeout=0 / socket_timeout=0) as ordinary cases + one "
         "read-throttled configuration + StreamIO effective-timeout pairs + wait_for cases. A case is non-trivial when its "
         "(script, k, configuration) triple is new; every case runs the real server once on the virtual clock."
@@ -784,6 +793,10 @@ def correspondence(ctx, thorough=None):
     xs = []
     xs += effective_timeouts_stream(ctx)
     wait_for_stream(ctx)
+    # first, so that a return of the repaired defect is reported with its recorded replay
+    fw = former_witnesses()
+    ctx.count("former_witness_cases", len(fw))
+    run_matrix(ctx, fw, stream="former-witness")
     cases = []
     for name, sc in SCRIPTS.items():
         for cfg in combos(rng, name, thorough):
@@ -800,9 +813,6 @@ def correspondence(ctx, thorough=None):
         ctx.count("random_scripts", 160)
     ctx.count("matrix_cases", len(cases))
     xs += run_matrix(ctx, cases)
-    fw = former_witnesses()
-    ctx.count("former_witness_cases", len(fw))
-    run_matrix(ctx, fw, stream="former-witness")
     # one throttled configuration: the read-throttle wait delays the arming of the idle timer
     tcases = []
     for name in ("login", "login_pwd", "login_slow", "retr_noconn", "retr_hold", "stor"):
